@@ -11,6 +11,7 @@ mod rng;
 mod sx;
 
 mod astdump;
+mod c04a;
 mod c05;
 mod c06;
 mod c07;
@@ -105,6 +106,7 @@ fn main() {
     // panics inside the code under test are caught per case; silence the default hook's noise
     std::panic::set_hook(Box::new(|i| { if std::env::var("VERIF_PANIC_TRACE").is_ok() { eprintln!("{i}"); } }));
     match group.as_str() {
+        "c04a" => c04a::run(&args, &mut out),
         "c05" => c05::run(&args, &mut out),
         "c06" => c06::run(&args, &mut out),
         "c07" => c07::run(&args, &mut out),
